@@ -429,7 +429,7 @@ def nontrivial(c):
 
 
 PARTS = [
-    Part("serialisation", strategy=case, oracle=oracle, nontrivial=nontrivial, n={"quick": 250, "thorough": 6000},
+    Part("serialisation", strategy=case, oracle=oracle, nontrivial=nontrivial, n={"quick": 800, "thorough": 6000},
          sample=lambda c: {"alg": c["alg"], "band": c["band"], "lang": c["lang"], "enc": c["enc"],
                            "ids": [p["id"] for p in c["net"]["points"]], "description": c["net"]["description"]}),
 ]
